@@ -134,7 +134,7 @@ pub fn nondet_unreachable() requires false { unimplemented!() }
 
 //@item file=netconf/src/message/mod.rs kind=const name=MARKER call=1
 
-//@extract id=ssh_pump file=netconf/src/transport/ssh.rs impl=/impl Ssh/ fn=connect block=/tokio::spawn\(async move / rules=R2,R3,R4,R14 consts=MARKER
+//@extract id=ssh_pump file=netconf/src/transport/ssh.rs impl=/impl Ssh/ fn=connect block=/tokio::spawn\(async move / rules=R2,R3,R4,R14,R17 consts=MARKER
 //@sig pub fn ssh_pump(mut out_queue_rx: OutRx, channel: &mut Channel, in_queue_tx: &mut InTx) -> (res: Result<(), Error>)
 //@contract
     requires old(channel).received@ == Seq::<u8>::empty(),
